@@ -760,4 +760,304 @@ theorem nextWith_spec {ex : Interp} (hT : ex.Total) (v : Pe.View) (hsz : v.b.siz
         simp only [Nat.zero_add, Nat.sub_zero] at hd
         exact ⟨c5, hd⟩
 
+/-! ### repeated `next` -/
+
+theorem IsCand_mono {v : Pe.View} {ql lo lo' hi p : Nat} (h : IsCand v ql lo hi p) (hlo : lo' ≤ p) :
+    IsCand v ql lo' hi p := by
+  unfold IsCand at h ⊢
+  split at h
+  · obtain ⟨_, h2⟩ := h; exact ⟨hlo, h2⟩
+  · obtain ⟨s, hs, _, h2⟩ := h; exact ⟨s, hs, hlo, h2⟩
+
+theorem IsCand_lo {v : Pe.View} {ql lo hi p : Nat} (h : IsCand v ql lo hi p) : lo ≤ p := by
+  unfold IsCand at h
+  split at h
+  · exact h.1
+  · obtain ⟨s, _, h1, _⟩ := h; exact h1
+
+/-- **(d), the whole sequence.**  The positions reported by repeated calls of `next` lie in the
+range, each was accepted by the interpreter which left the captures recorded with it, and the
+sequence is strictly ascending; `range.end - range.start + 1` calls exhaust the iterator. -/
+theorem scanAll_sound {ex : Interp} {nx : MSt → Array Nat → Out Res} (hi : Nat)
+    (hnx : ∀ m save, m.stop = hi → ∃ r, nx m save = .ok r ∧ NextSound ex m r) :
+    ∀ n (m : MSt) save, m.stop = hi →
+      ∃ a, scanAll nx n m save = .ok a ∧ a.m.stop = hi ∧
+        (∀ h ∈ a.hits, m.start ≤ h.1 ∧ h.1 < hi ∧ Acc ex h.1 h.2) ∧
+        (a.hits.map (·.1)).Pairwise (· < ·) ∧
+        (hi - m.start < n → a.exhausted = true) := by
+  intro n
+  induction n with
+  | zero =>
+    intro m save hm
+    exact ⟨_, rfl, hm, (fun h hh => by cases hh), List.Pairwise.nil, fun h => by omega⟩
+  | succ n ih =>
+    intro m save hm
+    obtain ⟨r, hr, hs⟩ := hnx m save hm
+    simp only [scanAll, hr, bind_ok']
+    cases hf : r.found with
+    | false =>
+      rw [if_neg (by simp)]
+      exact ⟨_, rfl, by rw [hs.stop_eq, hm], (fun h hh => by cases hh), List.Pairwise.nil, fun _ => rfl⟩
+    | true =>
+      rw [if_pos rfl]
+      obtain ⟨a1, a2, a3, a4, a5⟩ := hs.found hf
+      obtain ⟨a, ha, hb1, hb2, hb3, hb4⟩ := ih r.m r.save (by rw [hs.stop_eq, hm])
+      rw [ha]
+      simp only [bind_ok']
+      refine ⟨_, rfl, hb1, ?_, ?_, ?_⟩
+      · intro h hh
+        rcases List.mem_cons.1 hh with rfl | hh
+        · exact ⟨a1, by omega, a5⟩
+        · obtain ⟨c1, c2, c3⟩ := hb2 h hh
+          exact ⟨by omega, c2, c3⟩
+      · simp only [List.map_cons, List.pairwise_cons]
+        refine ⟨?_, hb3⟩
+        intro x hx
+        obtain ⟨h, hh, rfl⟩ := List.mem_map.1 hx
+        have := (hb2 h hh).1
+        omega
+      · intro hn
+        apply hb4
+        omega
+
+/-- **(e), the whole sequence.**  Once `next` has returned `false`, every candidate position that
+is not `deadV` has been reported. -/
+theorem scanAll_complete {ex : Interp} {v : Pe.View} {qs : List Nat} {nx : MSt → Array Nat → Out Res} (hi : Nat)
+    (hnx : ∀ m save, m.stop = hi → ∃ r, nx m save = .ok r ∧ NextOK ex v qs m r) :
+    ∀ n (m : MSt) save a, m.stop = hi → scanAll nx n m save = .ok a → a.exhausted = true →
+      ∀ p, IsCand v qs.length m.start hi p → ¬ deadV ex v qs p → p ∈ a.hits.map (·.1) := by
+  intro n
+  induction n with
+  | zero =>
+    intro m save a _ ha hex
+    simp only [scanAll, Out.ok.injEq] at ha
+    subst ha
+    cases hex
+  | succ n ih =>
+    intro m save a hm ha hex p hc hnd
+    obtain ⟨r, hr, hs⟩ := hnx m save hm
+    simp only [scanAll, hr, bind_ok'] at ha
+    rw [← hm] at hc
+    cases hf : r.found with
+    | false =>
+      exact absurd (hs.notfound hf p hc) hnd
+    | true =>
+      rw [hf, if_pos rfl] at ha
+      cases ha' : scanAll nx n r.m r.save with
+      | ok a' =>
+        rw [ha'] at ha
+        simp only [bind_ok', Out.ok.injEq] at ha
+        subst ha
+        simp only [List.map_cons, List.mem_cons]
+        by_cases hpe : p = r.pos
+        · exact .inl hpe
+        · right
+          by_cases hlt : p < r.m.start
+          · exact absurd (hs.skipped hf p hc hlt hpe) hnd
+          · have hstop : r.m.stop = hi := by rw [hs.stop_eq, hm]
+            apply ih r.m r.save a' hstop ha' hex p _ hnd
+            rw [← hm]
+            exact IsCand_mono hc (by omega)
+      | err e => rw [ha'] at ha; cases ha
+      | panic s => rw [ha'] at ha; cases ha
+      | ub s => rw [ha'] at ha; cases ha
+      | diverge => rw [ha'] at ha; cases ha
+
+/-! ### the interpreter behind `next` -/
+
+theorem setupGo_lt (pat : List Atom) (hok : pat.all Atom.ok = true) : ∀ room, ∀ q ∈ setupGo pat room, q < 256 := by
+  induction pat with
+  | nil => intro room q hq; simp [setupGo] at hq
+  | cons a rest ih =>
+    intro room q hq
+    have hrest : rest.all Atom.ok = true := by
+      simp only [List.all_cons, Bool.and_eq_true] at hok; exact hok.2
+    have ha : Atom.ok a = true := by
+      simp only [List.all_cons, Bool.and_eq_true] at hok; exact hok.1
+    cases a <;> simp only [setupGo] at hq <;> try (first | exact ih hrest _ q hq | (simp at hq; done))
+    next b =>
+      split at hq
+      · simp at hq
+      · rcases List.mem_cons.1 hq with rfl | hq
+        · simpa [Atom.ok] using ha
+        · exact ih hrest _ q hq
+
+theorem setup_lt (pat : List Atom) (hok : pat.all Atom.ok = true) : ∀ q ∈ setup pat, q < 256 :=
+  setupGo_lt pat hok _
+
+theorem interp_total (v : Pe.View) (hsz : v.b.size < 4294967296) (pat : List Atom) : (interp v pat).Total :=
+  fun c s => run_total (ofView_wf v hsz) pat c s
+
+theorem execOK_of_run {v : Pe.View} {pat : List Atom} (hnr : pat.all noRead = true) {p : Nat} {s s' : Array Nat} {b : Bool}
+    (h : interp v pat p s = .ok (b, s')) : execOK v pat p = b := by
+  obtain ⟨t, ht⟩ := run_save_indep (ofView v) pat hnr p s #[] s' b h
+  unfold execOK
+  rw [ht]
+  cases b <;> rfl
+
+open Pelite.Pe in
+theorem firstV_of_wf : ∀ (secs : List Sec), SecWF secs → ∀ s ∈ secs, ∀ rva, s.va ≤ rva →
+    rva < s.va + max s.vs s.rs → firstV secs rva = some s := by
+  intro secs
+  induction secs with
+  | nil => intro _ s hs; cases hs
+  | cons a rest ih =>
+    intro hwf s hs rva h1 h2
+    rw [firstV_cons]
+    rcases List.mem_cons.1 hs with rfl | hs
+    · have hnw := (hwf.1 s (List.mem_cons_self ..)).1
+      rw [if_pos]
+      rw [containsRva_iff]; unfold wadd32; omega
+    · have hle := hwf.head_le s hs
+      have hnw := (hwf.1 a (List.mem_cons_self ..)).1
+      rw [if_neg]
+      · exact ih hwf.tail s hs rva h1 h2
+      · rw [containsRva_iff]; unfold wadd32; omega
+
+open Pelite.Pe in
+/-- a position the interpreter accepts holds the literal prefix in the stored bytes the search
+compares (`deadV`'s second alternative is impossible for it) -/
+theorem prefix_in_store {v : Pe.View} (hsz : v.b.size < 4294967296) {pat : List Atom}
+    (hok : pat.all Atom.ok = true) (hwf : v.kind = .file → SecWF v.secs) {p : Nat} {s s' : Array Nat}
+    (h : interp v pat p s = .ok (true, s')) :
+    match v.kind with
+    | .view => winEq v.b p (setup pat) = true
+    | .file => ∀ sec ∈ v.secs, InSec v.b.size (setup pat).length sec p →
+        winEq v.b (sec.prd + (p - sec.va)) (setup pat) = true := by
+  have hpre := run_prefix (ofView_wf v hsz) pat hok p s s' h
+  cases hk : v.kind with
+  | view =>
+    rw [winEq_true_iff]
+    intro t b hb
+    obtain ⟨_, _, hx⟩ := ofView_read_view hk (hpre t b hb)
+    exact hx.symm
+  | file =>
+    intro sec hsec ⟨i1, i2, i3⟩
+    rw [winEq_true_iff]
+    intro t b hb
+    have ht : t < (setup pat).length := by
+      rcases Nat.lt_or_ge t (setup pat).length with h' | h'
+      · exact h'
+      · rw [List.getElem?_eq_none h'] at hb; cases hb
+    obtain ⟨s0, o, l, hf, hro, hx⟩ := ofView_read_file hk (hpre t b hb)
+    obtain ⟨w1, w2, w3⟩ := (hwf hk).1 sec hsec
+    rw [firstV_of_wf v.secs (hwf hk) sec hsec (p + t) (by omega) (by omega)] at hf
+    cases hf
+    have hir : sec.InRange := ⟨by omega, by omega, by omega, w2⟩
+    obtain ⟨_, _, _, _, ho, _⟩ := (rangeOne_ok_iff hir _ _ _ _ _).1 hro
+    subst ho
+    have hidx : sec.prd + (p + t - sec.va) = sec.prd + (p - sec.va) + t := by omega
+    rw [hidx] at hx
+    exact hx.symm
+
+/-- a `deadV` position is one at which the pattern does not execute successfully -/
+theorem deadV_not_execOK {v : Pe.View} (hsz : v.b.size < 4294967296) {pat : List Atom}
+    (hok : pat.all Atom.ok = true) (hnr : pat.all noRead = true) (hwf : v.kind = .file → SecWF v.secs)
+    {p : Nat} (hd : deadV (interp v pat) v (setup pat) p) : execOK v pat p = false := by
+  rcases hd with ⟨s, s', hr⟩ | hd
+  · exact execOK_of_run hnr hr
+  · cases hb : execOK v pat p with
+    | false => rfl
+    | true =>
+      exfalso
+      obtain ⟨b, s', hr⟩ := interp_total v hsz pat p #[]
+      have hb' := execOK_of_run hnr hr
+      rw [hb] at hb'
+      subst hb'
+      have hps := prefix_in_store hsz hok hwf hr
+      cases hk : v.kind with
+      | view =>
+        rw [hk] at hd hps
+        simp only at hd hps
+        rw [hps] at hd
+        exact absurd hd.2 (by simp)
+      | file =>
+        rw [hk] at hd hps
+        simp only at hd hps
+        obtain ⟨sec, hsec, hin, hw⟩ := hd
+        rw [hps sec hsec hin] at hw
+        exact absurd hw (by simp)
+
+/-! ### `finds` -/
+
+theorem IsScanPos_weaken {v : Pe.View} {lo lo' hi c : Nat} (h : IsScanPos v lo' hi c) (hlo : lo ≤ lo') :
+    IsScanPos v lo hi c := ⟨by have := h.1; omega, h.2.1, h.2.2⟩
+
+/-- **(f)** `finds` for an abstract success predicate `E` that the interpreter decides
+(`hacc`, `hdead`).  `true` means: the reported position `c` is the only candidate at which the
+pattern executes, and its captures are in the save array.  If moreover no examined position outside
+the candidates executes successfully (`hG`), `finds = true` exactly when there is exactly one
+candidate at which the pattern executes. -/
+theorem findsWith_spec {ex : Interp} {v : Pe.View} {qs : List Nat} {nx : MSt → Array Nat → Out Res} (hi : Nat)
+    (hnx : ∀ m save, m.stop = hi → ∃ r, nx m save = .ok r ∧ NextOK ex v qs m r)
+    (E : Nat → Bool) (hacc : ∀ p s, Acc ex p s → E p = true) (hdead : ∀ p, deadV ex v qs p → E p = false)
+    (m : MSt) (save : Array Nat) (hm : m.stop = hi) :
+    ∃ b s, findsWith nx m save = .ok (b, s) ∧
+      (b = true → ∃ c, Acc ex c s ∧ IsScanPos v m.start hi c ∧
+        ∀ p, IsCand v qs.length m.start hi p → E p = true → p = c) ∧
+      ((∀ c, IsScanPos v m.start hi c → E c = true → IsCand v qs.length m.start hi c) →
+        (b = true ↔ ∃ c, ∀ p, (IsCand v qs.length m.start hi p ∧ E p = true) ↔ p = c)) := by
+  obtain ⟨r1, hr1, hs1⟩ := hnx m save hm
+  unfold findsWith
+  simp only [hr1, bind_ok']
+  cases hf1 : r1.found with
+  | false =>
+    refine ⟨false, r1.save, by simp, fun h => by cases h, fun _ => ⟨fun h => by cases h, ?_⟩⟩
+    rintro ⟨c, hc⟩
+    have hcc := (hc c).2 rfl
+    have := hdead c (hs1.notfound hf1 c (by rw [hm]; exact hcc.1))
+    rw [hcc.2] at this; cases this
+  | true =>
+    have hstop1 : r1.m.stop = hi := by rw [hs1.stop_eq, hm]
+    obtain ⟨r2, hr2, hs2⟩ := hnx r1.m #[] hstop1
+    simp only [hr2, bind_ok', Bool.not_true, Bool.false_eq_true, if_false]
+    obtain ⟨a1, a2, a3, a4, a5⟩ := hs1.found hf1
+    have hsp1 := hs1.scanpos hf1
+    rw [hm] at hsp1
+    refine ⟨!r2.found, r1.save, rfl, ?_, ?_⟩
+    · intro hb
+      have hf2 : r2.found = false := by cases h : r2.found <;> simp_all
+      refine ⟨r1.pos, a5, hsp1, ?_⟩
+      intro p hc hE
+      cases hpe : decide (p = r1.pos) with
+      | true => exact of_decide_eq_true hpe
+      | false =>
+        have hpe := of_decide_eq_false hpe
+        exfalso
+        by_cases hlt : p < r1.m.start
+        · have := hdead p (hs1.skipped hf1 p (by rw [hm]; exact hc) hlt hpe)
+          rw [hE] at this; cases this
+        · have := hdead p (hs2.notfound hf2 p (by rw [hstop1]; exact IsCand_mono hc (by omega)))
+          rw [hE] at this; cases this
+    · intro hG
+      constructor
+      · intro hb
+        have hf2 : r2.found = false := by cases h : r2.found <;> simp_all
+        refine ⟨r1.pos, fun p => ⟨?_, ?_⟩⟩
+        · rintro ⟨hc, hE⟩
+          cases hpe : decide (p = r1.pos) with
+          | true => exact of_decide_eq_true hpe
+          | false =>
+            have hpe := of_decide_eq_false hpe
+            exfalso
+            by_cases hlt : p < r1.m.start
+            · have := hdead p (hs1.skipped hf1 p (by rw [hm]; exact hc) hlt hpe)
+              rw [hE] at this; cases this
+            · have := hdead p (hs2.notfound hf2 p (by rw [hstop1]; exact IsCand_mono hc (by omega)))
+              rw [hE] at this; cases this
+        · rintro rfl
+          exact ⟨hG _ hsp1 (hacc _ _ a5), hacc _ _ a5⟩
+      · rintro ⟨c, hc⟩
+        have h1c : r1.pos = c := (hc r1.pos).1 ⟨hG _ hsp1 (hacc _ _ a5), hacc _ _ a5⟩
+        cases hf2 : r2.found with
+        | false => rfl
+        | true =>
+          exfalso
+          obtain ⟨b1, b2, b3, b4, b5⟩ := hs2.found hf2
+          have hsp2 := hs2.scanpos hf2
+          rw [hstop1] at hsp2
+          have hsp2' : IsScanPos v m.start hi r2.pos := IsScanPos_weaken hsp2 (by omega)
+          have h2c : r2.pos = c := (hc r2.pos).1 ⟨hG _ hsp2' (hacc _ _ b5), hacc _ _ b5⟩
+          omega
+
 end Pelite.Scan
